@@ -402,6 +402,21 @@ def eval_polya(case, ctx):
         return n
     # the internal search looks at the last 4 x 16 aligned bases only: with more aligned tail bases than that the
     # recorded position lies inside the tail by construction, and only the old bound (all removed bases) applies
+    # an internal tail position that lies on a retained exon names a tail base of the read: by IsoQuant's convention
+    # the base behind the recorded polyA position is the first A of the tail, the base behind the recorded polyT
+    # position is the last T of the head (this generator aligns without insertions and deletions)
+    def base_at(pos1):
+        for b_ in ex:
+            if b_[0] <= pos1 <= b_[1] and tuple(b_) in block_at:
+                return q[block_at[tuple(b_)] + pos1 - b_[0]]
+        return None
+    for name, p_, ch in (("internal_polya_pos", pi.internal_polya_pos, "A"), ("internal_polyt_pos", pi.internal_polyt_pos, "T")):
+        if p_ != -1 and not (removed_left if ch == "T" else removed_right):
+            # (after exons were removed the position is recomputed from the retained exon, see the bounds below)
+            got = base_at(p_ + 1)
+            if got is not None and got != ch:
+                ctx.violation("C16:tail-position-names-a-base-that-is-not-a-tail-base:" + name,
+                              {"pos": p_, "base": got, "exons": ex[:3], "cigar": [list(x) for x in cigar]}, case)
     if removed_right:
         rlen = nontail(set(removed_right), "A")
         if sum(e - s + 1 for s, e in removed_right) > 56:
